@@ -10,5 +10,7 @@ for d in sys.argv[1:]:
          "confirmed_by": "tools_confirm_seeded.sh: demo.py exits 0 on a clean scratch worktree of /repo HEAD and non-zero with patch.diff applied; the package imports",
          "checks_run": "run.py selftest-sensitivity --only " + d + " (see last_check.json)",
          "expected": old.get("expected", "caught"), "note": old.get("note", "")}
+    if "detect_with" in old:
+        m["detect_with"] = old["detect_with"]
     json.dump(m, open(f"{base}/meta.json", "w"), indent=1)
     print("meta", d)
